@@ -45,6 +45,10 @@ namespace gtry::hlim {
 	class Clock;
 	class Subnet;
 	class Circuit;
+#ifdef GATERY_VERIF
+	/// Verification hook (guarded, default off): if set, called after every post-processing pass with the pass name.
+	extern void (*verif_passBoundary)(const char *pass, Circuit &circuit);
+#endif
 	class RevisitCheck;
 	class SignalGroup;
 
